@@ -51,6 +51,14 @@ def variants(t):
         # redundant parentheses around any sub-program
         if kind != "let" or True:
             yield "parens@%r" % (pp,), "ordered", zwmodel.render(zwmodel.replace_at(t, pp, ("par", [], n))), False
+        if kind == "cat":
+            # the empty expression `()` does nothing: one or two of them in any gap of a statement list
+            for i in range(len(n[1]) + 1):
+                for k in (1, 2):
+                    rew = ("cat", n[1][:i] + [NOP] * k + n[1][i:])
+                    yield "nop%d.%d@%r" % (k, i, pp), "ordered", zwmodel.render(zwmodel.replace_at(t, pp, rew)), False
+                    if k == 2:
+                        yield "nop%d.%d-nosimp@%r" % (k, i, pp), "ordered", zwmodel.render(zwmodel.replace_at(t, pp, rew)), True
         if kind == "opt":
             yield "opt@%r" % (pp,), "multiset", zwmodel.render(zwmodel.replace_at(t, pp, ("alt", [n[1], cat()]))), False
         if kind == "if":
@@ -91,6 +99,48 @@ def variants(t):
                     np = list(parts)
                     np[i] = ("dir", "s")
                     yield "undir%d@%r" % (i, pp), "ordered", zwmodel.render(zwmodel.replace_at(t, pp, ("fmt", np))), False
+
+
+NOP = ("par", [], ("cat", []))
+
+# pieces for the simplifier family: each maps an int on TOS to ints on TOS and is a trigger (or a non-trigger neighbour)
+# for one of the simplifier's rewrites: NOP dropping, CAT-in-CAT and ALT-in-ALT promotion, only-child promotion,
+# format-without-splices to string
+PIECES = ["()", "(())", "(() ())", "1 add", "(1 add)", "((2 mul) ())", "(1 add, 2 mul)", "((1 add, 2 mul), 3 mul)", "(,)", "((),)",
+          "(1 add,)", "\"ab\" length add", "\"\" length add", "\"%s\" length", "(\"a\"\\ \"b\") length add", "[()] length add"]
+SHAPE_CTX = ["%s", "[%s] length", "(%s, 7)", "?(%s) 1 add", "(%s || 9)", "(%s)*", "{%s} apply", "if (%s) then 1 else 2"]
+
+
+def shape_cases(maxlen, ctxlen):
+    for n in range(0, maxlen + 1):
+        for seq in itertools.product(PIECES, repeat=n):
+            body = " ".join(seq)
+            yield body
+            if n <= ctxlen:
+                for c in SHAPE_CTX[1:]:
+                    yield c % body
+
+
+def _shape_worker(d, chunk, extra):
+    out = {"n": 0, "bad": [], "outcomes": {}}
+    cmds = []
+    for q in chunk:
+        cmds.append(drv.run_cmd(q, p="(0, 1, 2)", lim=300))
+        cmds.append(drv.run_cmd(q, p="(0, 1, 2)", nosimp=True, lim=300))
+    rs = d.batch(cmds)
+    for i, q in enumerate(chunk):
+        a, b = rs[2 * i], rs[2 * i + 1]
+        out["n"] += 1
+        if a.crash or b.crash:
+            cr = a.crash or b.crash
+            out["bad"].append(("shape:%s|crash" % q, "`%s`: driver died: %s %s" % (q, cr[0], cr[1][-400:]), {"shape": q}))
+            continue
+        oc = "results" if a.results() else ("other" if a.lines else "empty")
+        out["outcomes"][oc] = out["outcomes"].get(oc, 0) + 1
+        if a.lines != b.lines or a.stderr != b.stderr:
+            out["bad"].append(("shape:%s" % q, "`%s` yields %r with the simplifier and %r without it" % (q, a.lines[:10], b.lines[:10]), {"shape": q}))
+    out["bad"] = out["bad"][:12]
+    return out
 
 
 def extra_corpus():
@@ -257,6 +307,12 @@ def _worker(d, task, extra):
 def replay(case):
     ctx = common.Ctx("C15", "quick")
     b = ctx.bin("zwdrv")
+    if "shape" in case:
+        d = drv.Drv(b, "core")
+        try:
+            return bool(_shape_worker(d, [case["shape"]], None)["bad"])
+        finally:
+            d.close()
     if "escape" in case:
         d = drv.Drv(b, "core")
         try:
@@ -303,9 +359,17 @@ def main(ctx):
         kinds["escape-spelling"] = kinds.get("escape-spelling", 0) + r["n"]
         for key, what, case in r["bad"]:
             ctx.violation(key, what, case)
+    shape_bounds = (4, 2) if thorough else (3, 2)
+    for r in common.pmap(ctx, _shape_worker, common.chunks(shape_cases(*shape_bounds), 400), fast if thorough else bins["zwdrv"], "core", timeout=90):
+        ctx.count("simplifier_shapes", r["n"])
+        kinds["simplifier-shape"] = kinds.get("simplifier-shape", 0) + r["n"]
+        for k, v in r["outcomes"].items():
+            ctx.count("simplifier_shapes_with_" + k, v)
+        for key, what, case in r["bad"]:
+            ctx.violation(key, what, case)
     t = zwgen.by_size(2)[2][20][1]
     ctx.sample({"program": zwmodel.render(t), "rewrites": [v[2] for v in list(variants(t))[:6]]})
-    n = ctx.counts.get("rewrites_executed", 0) + ctx.counts.get("escape_spellings", 0)
+    n = ctx.counts.get("rewrites_executed", 0) + ctx.counts.get("escape_spellings", 0) + ctx.counts.get("simplifier_shapes", 0)
     cov = {
         "states": n + ctx.counts.get("programs", 0),
         "transitions": n + ctx.counts.get("programs", 0),
@@ -317,6 +381,8 @@ def main(ctx):
                 "distinct = distinct (program, rewrite, position); distinct_outcomes = rewrites applied per kind",
         "bounds": {"corpora": "Z_3 transformers up to 3 nodes (4 thorough) on inputs 0,1,2; binder programs of depth 1 (every 4th of depth 2 thorough); literal/format/infix corpus",
                    "layouts": LAYOUTS,
+                   "simplifier_shapes": {"pieces": PIECES, "max_pieces": shape_bounds[0], "contexts": SHAPE_CTX, "max_pieces_in_context": shape_bounds[1],
+                                         "engine": "plain" if thorough else "sanitized"},
                    "escapes": "every byte 0-255 x every spelling (1-3 digit octal, \\xhh, \\xHH, named, literal, %%) x 9 following contexts, compared with the bytes it denotes"},
     }
     return ctx.finish("model_checking", cov, [
